@@ -652,6 +652,9 @@ func runL0(seed int64, n int, dir string) error {
 	fmt.Fprintf(cw, "%d probe encryptor-reuse\n", id)
 	fmt.Fprintf(iw, "%d %s\n", id, probeEncryptorReuse())
 	id++
+	fmt.Fprintf(cw, "%d probe node-object-cut-to-zero-bytes-is-reported\n", id)
+	fmt.Fprintf(iw, "%d %s\n", id, probeEmptiedNode())
+	id++
 	fmt.Fprintf(cw, "%d probe unencrypted-prefix-is-refused\n", id)
 	fmt.Fprintf(iw, "%d %s\n", id, probeUnencryptedRefused())
 	for _, pass := range [][]byte{{}, nil, []byte("p"), []byte("a longer passphrase")} {
